@@ -4,7 +4,6 @@ package verifsrv
 
 import (
 	"bufio"
-	"strconv"
 	"encoding/json"
 	"fmt"
 	"io"
@@ -14,6 +13,7 @@ import (
 	"os"
 	"os/exec"
 	"path/filepath"
+	"strconv"
 	"strings"
 	"sync"
 	"syscall"
@@ -160,14 +160,14 @@ type received struct {
 }
 
 type client struct {
-	conn   *websocket.Conn
-	peerID string
-	role   string
-	mu     sync.Mutex
-	inbox  []received
-	closed bool
+	conn     *websocket.Conn
+	peerID   string
+	role     string
+	mu       sync.Mutex
+	inbox    []received
+	closed   bool
 	closedAt time.Time
-	wmu    sync.Mutex
+	wmu      sync.Mutex
 }
 
 // dial connects a websocket client; status is the HTTP status when the upgrade was refused.
